@@ -1672,6 +1672,12 @@ class FE:
                 if et is not None and isinstance(s.res(et), (TStruct, TNamed)) and not (etd is not None and ets is not None and s.cty(etd) == s.cty(ets)): et = None
                 if et is not None and etd is not None and ets is not None and em.size_align(etd)[0] != em.size_align(ets)[0]: et = None
                 esz = em.size_align(et)[0] if et is not None else 1
+                if et is not None and esz > 1 and not isinstance(s.res(et), TPtr):
+                    # non-pointer elements: typed only when the length is syntactically count * sizeof(element); otherwise byte-wise
+                    # (the operand type may be that of an enclosing object, e.g. a char buffer inside a struct)
+                    dl = s.defs.get(lv.name) if isinstance(lv, VLocal) else None
+                    ok_ = dl is not None and ((dl['op'] == 'mul' and isinstance(dl['b'], VInt) and dl['b'].v % esz == 0) or (dl['op'] == 'shl' and isinstance(dl['b'], VInt) and (1 << dl['b'].v) % esz == 0))
+                    if not ok_: et = None; esz = 1
                 if et is not None and esz > 1 and esz <= 64 and isinstance(s.res(et), (TInt, TPtr, TStruct, TNamed)):
                     em.need_complete(et)
                     ct = s.cty(et); k = s.tmp()
